@@ -18,10 +18,12 @@ from ..symnp import SArr
 from ..run import H, explore_case, jsonable
 from .common import frac, fl, sets_1d_from_counts, voxel_sets, iou_frac, dice_frac
 
+from . import layera_match as LAM
+
 PROP = "C03"
 META = {
     "bounds": {
-        "quick": "instance grids 3x3 with <= 3 overlapping candidate pairs and 2x2 with <= 4; metrics IOU/DSC/ASSD; allow_many_to_one in {False, True}; "
+        "quick": "instance grids 3x3 with <= 3 overlapping candidate pairs, 2x2 and 2x3 with <= 4; the whole matcher on 2-3 voxel geometry classes with free label values per dtype; metrics IOU/DSC/ASSD; allow_many_to_one in {False, True}; "
                  "scores free reals in the metric range, thresholds free reals; second (stricter) threshold for monotonicity",
         "thorough": "3x3 with <= 4 pairs, 2x3 and 3x2 with <= 5 pairs; same option space",
     },
@@ -38,15 +40,19 @@ META = {
 
 def cases(tier):
     out = []
-    grids = [(3, 3, 3), (2, 2, 4)] if tier == "quick" else [(3, 3, 4), (2, 3, 5), (3, 2, 5)]
+    grids = [(3, 3, 3), (2, 2, 4), (2, 3, 4)] if tier == "quick" else [(3, 3, 4), (2, 3, 5), (3, 2, 5)]
     for metric in ("IOU", "DSC", "ASSD"):
         for many in (False, True):
             for R, Pn, mp in grids:
                 out.append({"name": "%s_many%d_%dx%d_le%d" % (metric, many, R, Pn, mp), "metric": metric, "many": many, "R": R, "P": Pn, "maxpairs": mp})
+    # layer A: the whole matcher (real overlap-pair extraction, kernels, relabelling) for every label value and dtype
+    out += LAM.matcher_cases(tier, PROP)
     return out
 
 
 def run_case(case):
+    if case.get("what") == "layerA_matcher":
+        return LAM.run_matcher_case(case, PROP, {"assign": "assignment_follows_documented_best_first_for_any_label_values"})
     from ..twin import Twin
     T = Twin()
     F = T.mod("panoptica._functionals")
@@ -336,4 +342,5 @@ def real_arrays(case, mode, expect):
     return _run_real(arrs, case, mode, expect)
 
 
-REAL = {"abstract": real_abstract, "abstract_search": real_search, "arrays": real_arrays}
+REAL = {"abstract": real_abstract, "abstract_search": real_search, "arrays": real_arrays,
+        "layerA_matcher": lambda case, mode, expect: LAM.real_matcher(case, mode, expect, {"assign": "assignment_follows_documented_best_first_for_any_label_values"})}
